@@ -68,6 +68,38 @@ CLAIMED["C13"] = dict(
     technique="CFG edge-dominance and must-pass-through, reaching definitions of the snapshot, who-may-write",
     design="3/C13")
 
+CLAIMED["C03"] = dict(
+    text="Decides structural necessary conditions of replication: reference rewriting in replica/aggregate compilation "
+         "must be escaped and boundary-anchored (SUB rule; today it is not - recorded as known findings with failing "
+         "inputs), replica names and rewritten references share one format and index, indices run over range(N), a "
+         "reference counts as replicated only for a positive propagated count of a non-aggregating producer, every "
+         "component is emitted by one branch, counts propagate topologically and stop at aggregating components. "
+         "Equality of the expanded dataflow with an independent expansion is not decided.",
+    technique="substitution-site lint with pattern-shape analysis (SUB), format-string agreement, CFG edge-dominance",
+    design="3/C03")
+CLAIMED["C05"] = dict(
+    text="Decides: every ordering construct keyed on the iteration prefix of a looped name converts it with int() "
+         "(sibling cross-check, repo-wide in the DoWhile modules), constructor/parser agreement of the '<i>#<name>' "
+         "format, loop-carried inputs rewritten to i-1 only for i>0 and not for loopref/loopoutput, no stage-offset drift "
+         "in stored loop bindings, deep copy + persistence in next-iteration, anchored rewriting, loop state from the "
+         "numeric maximum. Holds for every iteration count because it constrains the comparison, not sampled counts.",
+    technique="sibling cross-check lint over sort keys, format/parser agreement, CFG edge-dominance, SUB",
+    design="3/C05")
+CLAIMED["C10"] = dict(
+    text="Decides the structural necessary condition of exact substitution in resolveArguments: every content-based "
+         "substitution of a reference spelling is escaped and anchored on both sides (then declaration order cannot "
+         "matter), the replacement is the value resolved from the same reference, and the argument string is rewritten "
+         "nowhere else. Today's four str.replace sites violate it - genuine, reproduced, recorded as known findings.",
+    technique="substitution-site lint with pattern-shape analysis (SUB), local def-use of replacement values",
+    design="3/C10")
+CLAIMED["C19"] = dict(
+    text="Literal-table agreement between the DOSINI writers and parse_component for every option at once: written key "
+         "is known, tested by a reader branch, stored into the same FlowIR path, with a converter of the matching kind; "
+         "translate maps inverse; status/output section keys agree; known keys without reader branch are reported. "
+         "Value equality after a full round trip is not decided.",
+    technique="writer/reader table extraction from dict/lambda literals and an if/elif chain, set comparison",
+    design="3/C19")
+
 NOT_APPLICABLE = {
     "C20": "arithmetic over floating-point stage weights (sums, int(w*1000) truncation, fallback split) for every "
            "stage count: no structural clause is a necessary condition; needs numeric exploration or a solver, i.e. "
